@@ -592,6 +592,13 @@ class Explorer(object):
                     self._end(out, st, 'stop', stop_label=lbl, nxt=nxt)
                     return
                 n = st.visits.get(lbl, 0) + 1
+                # an iteration that was decided by constants alone (a walk over a constant table: no assumption was added
+                # since this block was entered last) is not a choice of the path: it does not count against the bound
+                seen_at = st.visits.get(('assume', lbl))
+                if seen_at is not None and seen_at == len(st.assume) and st.visits.get(('free', lbl), 0) < 64:
+                    st.visits[('free', lbl)] = st.visits.get(('free', lbl), 0) + 1
+                    n -= 1
+                st.visits[('assume', lbl)] = len(st.assume)
                 if n > self.max_visits:
                     self._end(out, st, 'cut', stop_label=lbl)
                     return
@@ -635,6 +642,28 @@ class Explorer(object):
                     addr = self.ev(ins.ops[0], st)
                     self._dereferenced(st, addr)
                     folded = self._const_load(addr, st) if root_of(addr)[0] == 'g' and addr[0] in ('idx', 'fld') else None
+                    if folded is None and root_of(addr)[0] == 'g' and addr[0] in ('idx', 'fld'):
+                        # one index is not known, the table is small: one path per index value (a state-transition table)
+                        unk = self._const_load(addr, st, want_unknown=True)
+                        if unk is not None:
+                            var, size = unk
+                            alts = []
+                            for k in range(size):
+                                if k in st.neq.get(var, ()):
+                                    continue
+                                s2 = st.fork()
+                                s2.known[var] = k
+                                s2.assume.append((('icmp', 'eq', var, ('c', k)), True, ins))
+                                v2 = self._const_load(addr, s2)
+                                if v2 is None:
+                                    alts = None
+                                    break
+                                s2.env[ins.res] = v2
+                                alts.append(s2)
+                            if alts:
+                                for s2 in alts:
+                                    work.append((s2, lbl, i + 1))
+                                return
                     if folded is not None:
                         st.env[ins.res] = folded
                     elif addr in st.mem:
@@ -832,8 +861,10 @@ class Explorer(object):
                     if a[0] == 'icmp' and b[1] == 0:
                         st.decided[a] = True
 
-    def _const_load(self, addr, st):
-        """the value read from an element of a constant global table when every index on the way is known on this path"""
+    def _const_load(self, addr, st, want_unknown=False):
+        """the value read from an element of a constant global table when every index on the way is known on this path
+        (want_unknown: instead, (index value, dimension) when exactly one index is unknown and its dimension is at most 8)"""
+        unknown = []
         steps = []
         a = addr
         while a[0] in ('idx', 'fld'):
@@ -868,6 +899,9 @@ class Explorer(object):
                     while w[0] == 'bin' and w[1] in ('sext', 'zext', 'trunc'):
                         w = w[2]
                     k = w[1] if is_const(w) else st.known.get(w)
+                if k is None and want_unknown and len(tree) <= 8:
+                    unknown.append((w, len(tree)))
+                    k = 0
                 if k is None or not (0 <= k < len(tree)):
                     return None
                 tree = tree[k]
@@ -881,6 +915,8 @@ class Explorer(object):
                 tree = tree[k]
         if tree is None or isinstance(tree, list):
             return None
+        if want_unknown:
+            return unknown[0] if len(unknown) == 1 else None
         try:
             return self.ev(tree, st)
         except Exception:
